@@ -680,9 +680,13 @@ def observe_lg(c, L):
 DELIM = {'comma': ',', 'semi': ';', 'colon': ':', 'slash': '/', 'amp': '&'}
 
 
-def observe_nested(chain, L):
+def observe_nested(chain, L, tail='none'):
     def build(kw):
-        g = L['StringGrader']()
+        if tail == 'none':
+            g = L['StringGrader']()
+        else:       # an IntervalGrader (subclass of SingleListGrader) as the innermost list grader
+            icfg = {} if tail == 'default' else {'delimiter': DELIM[tail]}
+            g = L['IntervalGrader'](**icfg) if kw else L['IntervalGrader'](icfg)
         for d in reversed(chain):
             cfg = {'subgrader': g, 'delimiter': DELIM[d]}
             g = L['SingleListGrader'](**cfg) if kw else L['SingleListGrader'](cfg)
@@ -850,10 +854,10 @@ def replay_states(states, extra):
             case = {'part': kind, 'case': {k: c[k] for k in ('inner', 'nin', 'oform', 'oordered', 'ngroups')}}
             res['keys'].add((kind, expect, c['oform'], c['inner']['one'], c['inner']['ordered'], len(c['inner']['grouping']) > 0))
         elif kind == 'nested':
-            obs = observe_nested(c['chain'], L)
+            obs = observe_nested(c['chain'], L, c['tail'])
             probs = judge_simple(expect, obs, 'nested-delimiters')
-            case = {'part': kind, 'chain': c['chain']}
-            res['keys'].add((kind, expect, len(c['chain'])))
+            case = {'part': kind, 'chain': c['chain'], 'tail': c['tail']}
+            res['keys'].add((kind, expect, len(c['chain']), c['tail'] != 'none'))
         elif kind == 'interval':
             obs = observe_interval(c, L)
             probs = judge_simple(expect, obs, 'intervalgrader-answers')
@@ -1022,7 +1026,8 @@ def rand_records(rng, n, table):
                          'curly': rng.random() < .5, 'wrap': rng.choice(['bare', 'tuple', 'dict']),
                          'sub': rng.choice(['omitted', 'omitted', 'none'])})
         elif r < .96:
-            recs.append({'id': i, 'ev': 'nested', 'chain': [rng.choice(sorted(DELIM)) for _ in range(rng.randint(1, 5))]})
+            recs.append({'id': i, 'ev': 'nested', 'chain': [rng.choice(sorted(DELIM)) for _ in range(rng.randint(1, 5))],
+                         'tail': rng.choice(['none', 'none', 'default'] + sorted(DELIM))})
         else:
             recs.append({'id': i, 'ev': 'square', 'symmetry': rng.choice(['none', 'diagonal', 'symmetric', 'antisymmetric',
                                                                            'hermitian', 'antihermitian']),
@@ -1067,7 +1072,7 @@ def observe_chunk(recs, extra):
                      canon_ok=o['canon_ok'], kwargs_equal=o['kwargs_equal'], idempotent=o['idempotent'])
         else:
             o = observe_lg(r, L) if ev == 'lgroup' else observe_lnest(r, L) if ev == 'lnest' \
-                else observe_nested(r['chain'], L) if ev == 'nested' \
+                else observe_nested(r['chain'], L, r.get('tail', 'none')) if ev == 'nested' \
                 else observe_interval(r, L) if ev == 'interval' else observe_square(r, L)
             r.update(status=o['status'], status_kw=o['status_kw'], exc=o['exc'] or o['exc_kw'] or '', canon_ok=o['canon_ok'],
                      kwargs_equal=o['kwargs_equal'], idempotent=o['idempotent'])
@@ -1087,7 +1092,7 @@ def report_trace(ctx, r, clause):
     clause = str(clause)
     head = clause.split(':')[0]
     klass = refine(CLAUSE_CLASS.get(head) or 'non-config-exception:%s' % r.get('exc'), r)
-    case = {k: r[k] for k in r if k in ('cls', 'cfg', 'ctx', 'ans', 'la', 'chain', 'ordered', 'subs', 'one', 'grouping', 'nans', 'ntup',
+    case = {k: r[k] for k in r if k in ('cls', 'cfg', 'ctx', 'ans', 'la', 'chain', 'tail', 'ordered', 'subs', 'one', 'grouping', 'nans', 'ntup',
                                         'form', 'open', 'close', 'nbounds', 'curly', 'wrap', 'sub', 'inner', 'nin', 'oform',
                                         'oordered', 'ngroups',
                                         'symmetry', 'traceless', 'determinant', 'complex', 'dimension')}
@@ -1230,7 +1235,7 @@ def replay(ctx, rec):
         obs = observe_listans(sig['cls'], sig.get('la') or sig['ans'], L)
     else:
         case = sig.get('case') or sig
-        obs = observe_lg(case, L) if part == 'lgroup' else observe_lnest(case, L) if part == 'lnest' else observe_nested(sig.get('chain') or case['chain'], L) if part == 'nested' \
+        obs = observe_lg(case, L) if part == 'lgroup' else observe_lnest(case, L) if part == 'lnest' else observe_nested(sig.get('chain') or case['chain'], L, sig.get('tail', 'none')) if part == 'nested' \
             else observe_interval(case, L) if part == 'interval' else observe_square(case, L)
     print('now     :', {k: obs[k] for k in ('status', 'exc', 'status_kw', 'exc_kw', 'canon_ok', 'kwargs_equal', 'idempotent', 'detail')
                        if k in obs})
